@@ -85,10 +85,12 @@ def derive(obj, op):
     raise ValueError(k)
 
 
-def run_query(obj, q):
-    """Execute one query; returns canonical result or {"raised": <type name>}."""
+def run_query(obj, q, shared=None):
+    """Execute one query; returns canonical result or {"raised": <type name>}. ``shared``: a dictionary object owned by
+    the session; queries flagged "shared" put their interpretation into THAT object (cleared and refilled in place), the way
+    a caller keeps one configuration dictionary and updates it between calls. The reference never shares."""
     try:
-        return _run_query(obj, q)
+        return _run_query(obj, q, shared)
     except BaseException as e:  # noqa
         if isinstance(e, (KeyboardInterrupt, SystemExit)):
             raise
@@ -99,15 +101,23 @@ def _solver(name, log):
     return {"marker": solvers.marker(log), "exact": solvers.exact(log, 5000), "none": solvers.none_solver}[name]
 
 
-def _run_query(obj, q):
+def _run_query(obj, q, shared=None):
     import puan.logic.plog as pg
     k = q["q"]
+
+    def given():
+        d = interp(q["i"])
+        if shared is not None and q.get("shared"):
+            shared.clear()
+            shared.update(d)
+            return shared
+        return d
     if k == "evaluate":
-        return canon(obj.evaluate(interp(q["i"])))
+        return canon(obj.evaluate(given()))
     if k == "evaluate_propositions":
-        return canon(obj.evaluate_propositions(interp(q["i"])))
+        return canon(obj.evaluate_propositions(given()))
     if k == "assume":
-        return canon(obj.assume(interp(q["i"])))
+        return canon(obj.assume(given()))
     if k == "reduce":
         return canon(obj.reduce())
     if k == "negate":
